@@ -223,6 +223,11 @@ func (m *StateMachine) handleCatchupEvent(
 			if !m.handleFinalization(ctx, rlc, resp) {
 				return false
 			}
+
+			// Return to the kernel loop so that it re-evaluates rlc.IsReplaying:
+			// the finalization advanced the height, and if the mirror answered
+			// the new round entrance with a round view we are live again.
+			return true
 		}
 	}
 }
